@@ -139,7 +139,7 @@ def prepare(unit, scratch):
     if marker in orig:
         return {'workdir': scratch.repo, 'pkg': unit.crate, 'sha_before': None}
     sha = hashlib.sha256(orig.encode()).hexdigest()
-    body = unit.text
+    body = re.sub(r'^(\s*)//!', r'\1//', unit.text, flags=re.M)
     mod = ('\n%s\n#[cfg(any(kani, rbverif_replay))]\n#[allow(unused_imports, dead_code, unused_variables, unused_mut, clippy::all)]\n'
            'mod %s {\n    use super::*;\n%s\n%s\n%s\n%s}\n' % (marker, unit.mod_name(), support, body, kf_consts(body), replay_entry(unit)))
     open(target, 'w').write(orig + mod)
